@@ -5,7 +5,7 @@ import sqlcommon as sc
 from sexpr import enc, hexs
 from odata_query import ast
 
-PROP_MODS = ["ODataVerif.Tie.Sql", "ODataVerif.Props.C09"]
+PROP_MODS = ["ODataVerif.Tie.Sql", "ODataVerif.Tie.SqlTemplates", "ODataVerif.Tie.ParserTables", "ODataVerif.Props.C09", "ODataVerif.Props.C09Parse", "ODataVerif.Props.C06Image"]
 
 def cases_for(ctx):
     rng = ctx.rng
@@ -21,6 +21,18 @@ def cases_for(ctx):
             nodes.append(impl.real_parse_ast(f))
         except Exception:  # noqa
             pass
+    # duration literals: every sign x component combination that matters for the INTERVAL rendering, in several operand positions
+    I = sc.I
+    for dur in ["P1D", "-P1D", "+P1D", "PT0S", "P1Y2M3DT4H5M6.5S", "-P1Y2M3DT4H5M6.5S", "-P1DT12H", "+PT1H30M", "P2M", "-PT1M", "PT1.5S", "-P1YT1S"]:
+        d = ast.Duration(dur)
+        nodes += [ast.Compare(ast.Gt(), ast.BinOp(ast.Add(), I("dt1"), d), I("dt2")), ast.Compare(ast.Lt(), I("dt1"), ast.BinOp(ast.Sub(), sc.call("now"), d)),
+                  ast.Compare(ast.Eq(), I("du1"), d), ast.Compare(ast.In(), I("du1"), ast.List([d, ast.Duration("P1D")])),
+                  ast.Compare(ast.Ge(), ast.BinOp(ast.Sub(), I("dt1"), ast.BinOp(ast.Add(), d, d)), I("dt2")) if hasattr(ast, "Ge") else ast.Compare(ast.GtE(), ast.BinOp(ast.Sub(), I("dt1"), ast.BinOp(ast.Add(), d, d)), I("dt2")),
+                  ast.Compare(ast.Eq(), ast.UnaryOp(ast.USub(), d), I("du1"))]
+    # every other literal kind in a comparison and a list
+    for lit in [ast.Date("2020-02-29"), ast.Time("23:59:59"), ast.DateTime("2020-01-01T10:00:00Z"), ast.DateTime("2020-01-01T10:00:00.5+01:00"), ast.GUID("01234567-89ab-cdef-0123-456789abcdef"),
+                ast.Float("1.5"), ast.Float("-2.5E-2"), ast.Integer("-7"), ast.Integer("+3"), ast.Boolean("TRUE"), ast.Null()]:
+        nodes += [ast.Compare(ast.Eq(), I("x1"), lit), ast.Compare(ast.NotEq(), lit, I("x1")), ast.Compare(ast.In(), I("x1"), ast.List([lit, lit]))]
     # field spellings: athena sanitiser, keywords as names, long names
     for nm in ["Name", "eac", "SELECT", "a1_b", "é", "naïve_Col", "x" * 40, "İd", "K", "_u", "ns9"]:
         nodes.append(ast.Compare(ast.Eq(), ast.Identifier(nm), ast.Integer("1")))
@@ -74,7 +86,7 @@ def sig_of(node, verdict, dialect):
     return f"C09:{dialect}:{verdict[0]}:{type(node).__name__}"
 
 def run(ctx):
-    common.build_and_audit(ctx, PROP_MODS, gen=lambda c: gen_tables.generate(["Sql"]))
+    common.build_and_audit(ctx, PROP_MODS, gen=lambda c: gen_tables.generate(["Sql", "SqlTemplates", "ParserTables"]))
     uniq, typed_set = cases_for(ctx)
     cases = []
     for w, n in uniq:
